@@ -85,6 +85,10 @@ def conclude(prop, module, tier, seed, stats, t0, pool, *, assumptions, rule, ex
         if (cs.harness, sig) in seen_sigs:
             continue
         seen_sigs.add((cs.harness, sig))
+        if len(seen_sigs) > 8:
+            if exit_code == 0:
+                exit_code = 1
+            continue
         path = write_replay(prop, module, cs.harness, cs.cfg, sig, ent['choices'], ent['detail'],
                             trace=rep['trace'], observation=rep['observation'])
         log(f'VIOLATION property={prop} replay={path}')
@@ -93,6 +97,8 @@ def conclude(prop, module, tier, seed, stats, t0, pool, *, assumptions, rule, ex
         if exit_code == 0:
             exit_code = 1
 
+    if len(seen_sigs) > 8:
+        log(f'  ... and {len(seen_sigs) - 8} further distinct violation signatures (see evidence per_configuration)')
     execs = sum(cs.execs for cs in stats)
     nodes = sum(cs.nodes for cs in stats)
     nontrivial = sum(cs.nontrivial for cs in stats)
